@@ -249,6 +249,14 @@ def check_layouts(ctx, m):
     rng = ctx.rng
     for i in range(ctx.scale(300, 5000)):
         sec = bytearray(rng.randrange(256) for _ in range(512))
+        if i % 3 == 0:
+            # edge values in whole fields: all zero / all ones sectors, and words set to 0, 1, the sign bit, all ones (C20-m6: a serialiser
+            # that replaces a legitimate 0 — "falsy" — by the "unknown" value)
+            if i % 9 == 0:
+                sec = bytearray([0x00, 0xFF, 0x00][(i // 9) % 3:][:1] * 512)
+            for o in range(0, 512, 4):
+                if rng.random() < (0.35 if i % 9 else 0.1):
+                    sec[o:o + 4] = struct.pack("<L", rng.choice([0, 0, 1, 0x80000000, 0xFFFFFFFF, 0x0000FFFF, 0xFFFF0000]))
         ctx.evaluations += 1
         for cls, n in ((FAT12BootSectorHeader, 62), (FAT32BootSectorHeader, 90)):
             h = cls()
